@@ -101,7 +101,7 @@ func steps(kind string, n int, st upstream.Step) []upstream.Step {
 
 // Families are the scenario families of C01/C05/C19.
 var Families = []string{"steady", "reset-after-k", "neverack-restart", "neverack-restart-notraffic", "refuse-then-recover", "late-ack",
-	"stop-with-pending-acks", "stop-mid-chunk", "restarts-in-a-row", "open-at-stop", "wrong-id", "blackhole-restart", "two-outputs-one-faulty", "overflow", "session-renewal", "young-pipeline-at-stop", "interrupted-recovery", "quota-headroom"}
+	"stop-with-pending-acks", "stop-mid-chunk", "restarts-in-a-row", "open-at-stop", "wrong-id", "blackhole-restart", "two-outputs-one-faulty", "overflow", "session-renewal", "young-pipeline-at-stop", "interrupted-recovery", "quota-headroom", "renewal-unacked"}
 
 // GenScenario draws one scenario of a family.
 func GenScenario(r *rand.Rand, family string, idx int, o Opt) Scenario {
@@ -298,6 +298,20 @@ func GenScenario(r *rand.Rand, family string, idx int, o Opt) Scenario {
 			one.Recs = append(one.Recs, Rec{Conn: one.ID, Seq: q, App: "appA", Sev: 6, Host: "h1", Kind: "plain", Pad: 40 + r.Intn(40)})
 		}
 		sc.Gens = []GenSpec{{Conns: []ConnSpec{one}, UpScript: healthy(), WaitAcked: true}}
+	case "renewal-unacked":
+		// sessions reach upstream.maxDuration (25 ms) long before the ACK time-out (300 ms) while the upstream takes chunks
+		// without acknowledging them: the graceful end of such a session finds chunks being waited for AND chunks queued behind
+		// them, then the ACK read fails; later the upstream is healthy
+		sc.MaxDurMs = 25
+		sc.ChunkBytes = 300
+		sc.MaxPending = 10
+		cs := conns()
+		for ci := range cs {
+			for ri := range cs[ci].Recs {
+				cs[ci].Recs[ri].App, cs[ci].Recs[ri].Sev = "appA", 6 // one pipeline sees the whole script
+			}
+		}
+		sc.Gens = []GenSpec{{Conns: cs, UpScript: all(steps("neverack", 2+r.Intn(3), upstream.Step{})), WaitAcked: true}}
 	case "session-renewal":
 		sc.MaxDurMs = 20 + r.Intn(60)
 		cs := conns()
